@@ -1,6 +1,11 @@
 #!/bin/sh
 # MANIFEST.setup_cmd: build every Lean module (models, lemmas, property theorems) and every model driver.
-set -e
-cd "$(dirname "$0")/lean"
-lake build
-lake build $(grep -o 'mvdriver-[a-z]*' lakefile.toml | sort -u)
+# A module that fails to build here is reported by the check that needs it (failed obligation), so setup
+# itself only fails when the toolchain is unusable.
+cd "$(dirname "$0")/lean" || exit 1
+lake --version || exit 1
+lake build || echo "setup: some Lean modules failed to build (the owning checks will report them)"
+for d in $(grep -o 'mvdriver-[a-z]*' lakefile.toml | sort -u); do
+  lake build "$d" >/dev/null 2>&1 || echo "setup: $d failed to build"
+done
+exit 0
